@@ -1,0 +1,20 @@
+//go:build verif
+
+package stateroot
+
+// Contracts for the verif build tag (comment-only; see /verif/DESIGN.md).
+
+//@ import util github.com/nspcc-dev/neo-go/pkg/util
+// Observer abstraction of the state root module as read by header verification.
+//@ ghost Module.height uint32
+//@ ghost Module.root util.Uint256
+//@ func (*Module).CurrentLocalHeight
+//@ assumed
+//@ pure
+//@ requires s != nil
+//@ ensures result == s.height
+//@ func (*Module).CurrentLocalStateRoot
+//@ assumed
+//@ pure
+//@ requires s != nil
+//@ ensures result == s.root
